@@ -104,6 +104,7 @@ def main() -> int:
     ap.add_argument("props", nargs="*")
     ap.add_argument("--jobs", type=int, default=min(16, os.cpu_count() or 4))
     ap.add_argument("--only", default=None)
+    ap.add_argument("--kind", default=None, choices=["mutants", "seeds", "twins"], help="restrict to hand-written mutants, kept seeded changes or kept refactorings")
     ap.add_argument("--tier", default="quick")
     ap.add_argument("-v", action="store_true")
     a = ap.parse_args()
@@ -115,6 +116,9 @@ def main() -> int:
             m["props"] = [p for p in m["props"] if p in want]
     if a.only:
         muts = [m for m in muts if a.only in m["id"]]
+    if a.kind:
+        kind_of = lambda i: "seeds" if i.startswith("seed-") else ("twins" if i.startswith("twin-") else "mutants")      # noqa: E731
+        muts = [m for m in muts if kind_of(m["id"]) == a.kind]
     bad = 0
     with cf.ThreadPoolExecutor(max_workers=a.jobs) as ex:
         for m, results, err in ex.map(lambda m: run_one(m, a.tier), muts):
